@@ -27,6 +27,9 @@ def shards(tier):
     ]
     for k in range(2 if q else 8):
         out.append({"name": "trees.np.jit.%d" % k, "mode": "jit", "backend": "np", "fn": "trees", "n": 500 if q else 20000})
+    out.append({"name": "wide.np.jit", "mode": "jit", "backend": "np", "fn": "wide", "n": 3 if q else 60})
+    out.append({"name": "wide.torch", "mode": "jit", "backend": "torch", "fn": "wide", "n": 2 if q else 30})
+    out.append({"name": "forms.np.jit", "mode": "jit", "backend": "np", "fn": "trees", "n": 100 if q else 4000, "forms": 1})
     return out
 
 
@@ -391,3 +394,71 @@ def run_trees(shard, rec, B):
             E = O.dense_poly(ig, ip, hc)
             rec.check("linear.map", O.close(dense_of(B, H2, N), E, 1e-6 * (1 + np.abs(E).max())) and np.allclose(B.cnp(H2.cs), hc, atol=1e-6),
                       {"poly": describe(B, H, N), "map": [O.show(g, p) for g, p in zip(mg, mp)]}, True)
+
+
+def canon_terms(gs, ps, cs, tol=1e-6):
+    d = {}
+    for g, p, c in zip(gs, ps, cs):
+        k = tuple(int(v) for v in g)
+        d[k] = d.get(k, 0) + complex(c) * 1j ** int(p)
+    return {k: v for k, v in d.items() if abs(v) > tol}
+
+
+def same_terms(a, b, tol):
+    return set(a) == set(b) and all(abs(a[k] - b[k]) <= tol * (1 + abs(a[k])) for k in a)
+
+
+def run_wide(shard, rec, B):
+    """polynomials on wide registers (13..130 qubits) whose strings are near-duplicates of each other (equal up to one far
+    site, shared long prefixes / suffixes): merging by reduce / + / - and products are judged term by term with a dict oracle."""
+    rng = gen.rng_for(rec)
+    tol = 1e-9 if B.name == "np" else 1e-4
+    for t in range(shard["n"]):
+        for N in [13, 16, 20, 32, 33, 64, 65, 70, 130]:
+            base = gen.sparse_string(rng, N, 2) if rng.integers(2) else gen.rand_string(rng, N)
+            strs = [base.copy()]
+            for q in (N - 1, N // 2, 12 % N, 0, int(rng.integers(N))):
+                g = base.copy()
+                g[2 * q + int(rng.integers(2))] ^= 1
+                strs.append(g)
+            strs.append(base.copy())      # an exact duplicate as well
+            strs.append(np.zeros(2 * N, dtype=np.int64))
+            gs = np.stack(strs)
+            L = len(gs)
+            ps = rng.integers(0, 4, L)
+            cs = gen.rand_coeffs(rng, L) + 0.5
+            H = B.Poly(gs.copy(), ps.copy(), cs.copy())
+            case = {"N": N, "terms": [[O.show(g, p), complex(c)] for g, p, c in zip(gs, ps, cs)] if N <= 20 else ["%d near-duplicate strings" % L]}
+            want = canon_terms(gs, ps, cs)
+            ok, R = rec.attempt("reduce.wide", case, lambda: H.reduce())
+            if ok:
+                got = canon_terms(B.np(R.gs).reshape(-1, 2 * N), B.ph(R.ps), B.cnp(R.cs))
+                rec.check("reduce.wide", same_terms(got, want, tol) and len(B.ph(R.ps)) == len(want), case, True,
+                          expected="%d merged terms" % len(want), observed="%d terms" % len(B.ph(R.ps)))
+            g2 = np.stack([strs[1], strs[2], gen.sparse_string(rng, N, 1)])
+            p2 = rng.integers(0, 4, 3)
+            c2 = gen.rand_coeffs(rng, 3) + 0.5
+            K = B.Poly(g2.copy(), p2.copy(), c2.copy())
+            for op, sign in (("add", 1), ("sub", -1)):
+                ok, R = rec.attempt("op.%s.wide" % op, case, (lambda: H + K) if sign == 1 else (lambda: H - K))
+                if ok:
+                    want2 = canon_terms(np.concatenate([gs, g2]), np.concatenate([ps, p2]), np.concatenate([cs, sign * c2]))
+                    got = canon_terms(B.np(R.gs).reshape(-1, 2 * N), B.ph(R.ps), B.cnp(R.cs))
+                    rec.check("op.%s.wide" % op, same_terms(got, want2, tol), case, True, expected="%d terms" % len(want2), observed="%d terms" % len(got))
+            ok, R = rec.attempt("op.matmul.wide", case, lambda: H @ K)
+            if ok:
+                eg, ep = O.mul(gs[:, None, :], ps[:, None], g2[None, :, :], p2[None, :])
+                want3 = canon_terms(eg.reshape(-1, 2 * N), ep.reshape(-1), (cs[:, None] * c2[None, :]).reshape(-1))
+                got = canon_terms(B.np(R.gs).reshape(-1, 2 * N), B.ph(R.ps), B.cnp(R.cs))
+                rec.check("op.matmul.wide", same_terms(got, want3, tol * 10), case, True)
+                ok, R2 = rec.attempt("reduce.wide", case, lambda: R.reduce())
+                if ok:
+                    got = canon_terms(B.np(R2.gs).reshape(-1, 2 * N), B.ph(R2.ps), B.cnp(R2.cs))
+                    rec.check("reduce.wide", same_terms(got, want3, tol * 10) and len(B.ph(R2.ps)) == len(want3), dict(case, of="product"), True)
+            if B.name == "torch" and N >= 120:
+                continue   # 2^N does not fit the port's float32 / complex64 numbers: outside what the port can represent
+            ok, tr = rec.attempt("trace.poly", case, lambda: H.trace())
+            if ok:
+                wanttr = sum(c * 1j ** int(p) for g, p, c in zip(gs, ps, cs) if not g.any()) * 2.0 ** N
+                gottr = complex(B.cnp(tr).reshape(-1)[0]) if np.ndim(B.cnp(tr)) else complex(B.cnp(tr))
+                rec.check("trace.poly", abs(gottr - wanttr) <= (1e-9 if B.name == "np" else 1e-4) * (1 + abs(wanttr)), case, True, expected=wanttr, observed=gottr)
